@@ -158,12 +158,12 @@ CLAIMED = {
         "design_ref": "DESIGN.md §12.3 C12",
     },
     "C13": {
-        "text": "Facade proved against provenance predicates: each of the eight trait methods (and basic_annotate) of `Language`, generated by delegate!, must "
+        "text": "Facade proved against provenance predicates: each of the eight trait methods (and basic_annotate) of `Language` - the body of the `delegate!` macro_rules, expanded textually at its invocation by the extractor (rule R28) so that they are ordinary functions with every rewrite rule available - must "
                 "establish for each variant the opaque predicate that only the same-named method of that variant's concrete interpreter establishes, so a swapped, "
                 "missing or defaulted delegation fails; get_interpreter_for is proved to return exactly the matching variant for the seven ISO codes (found and "
                 "fixed: 'pt') and None for every other string.",
         "note": TRUST + "The seven interpreters are stubs carrying only the trait contract in this unit (their own proofs are the lang_* units).",
-        "design_ref": "DESIGN.md §12.3 C13",
+        "design_ref": "DESIGN.md §12.3 C13, §13.12",
     },
     "C14": {
         "text": "Partial: (a) no interpreter method writes to the process's standard streams: dbg!/print!/eprint! families are rewritten to a helper whose "
